@@ -49,6 +49,9 @@ NoText == 0
 
 Other(p) == IF p = "A" THEN "B" ELSE "A"
 TagOf(p) == IF p = "A" THEN 1 ELSE IF p = "B" THEN 2 ELSE 3
+\* the long-term key an endpoint signs with: "C" is a second client instance of B's account (same
+\* long-term key, its own instance tag and DH secrets), see OTRMulti.tla
+KeyOf(p) == IF p = "C" THEN "B" ELSE p
 
 \* ------------------------------------------------------------------------
 \* State of one endpoint
@@ -212,7 +215,7 @@ Finish(s, fresh) ==
                       !.ctrs = {}, !.macs = {}, !.pend = IF KF_ReAKEWipesMacs THEN {} ELSE s.pend \cup {<<k[3], k[4]>> : k \in s.macs},
                       !.ms = "enc", !.renc = TRUE, !.sess = IF KF_EarlySSID THEN @ ELSE s.asess]
       s2 == WipeAKE(s1)
-      ev == (IF s.peer = s.me THEN <<"msg:MessageReflected">> ELSE <<>>)
+      ev == (IF s.peer = KeyOf(s.me) THEN <<"msg:MessageReflected">> ELSE <<>>)
             \o (IF was = "enc" THEN <<"sec:StillSecure">> ELSE <<"sec:GoneSecure">>)
   IN [s |-> s2, evs |-> ev]
 
@@ -243,12 +246,12 @@ RecvDHKey(s, m) ==
                   s1 == WithOwnTag([s EXCEPT !.agy = gy, !.asess = SortedPair(s.ax, gy),
                                              !.sess = IF KF_EarlySSID THEN SortedPair(s.ax, gy) ELSE @, !.akid = s.akid + 1,
                                              !.rev = IF KF_EarlySSID THEN TRUE ELSE @, !.auth = "awSig"])
-                  xs == SigBlob("R", s1.ax, gy, s1.me, s1.akid)
+                  xs == SigBlob("R", s1.ax, gy, KeyOf(s1.me), s1.akid)
               IN Res(s1, <<RevealSigMsg(s1, s1.ax, xs)>>, NoText, FALSE, <<>>)
     [] s.auth = "awSig" ->
          IF m.gy = -2 THEN Res(s, <<>>, NoText, TRUE, <<>>)
          ELSE IF m.gy = s.agy /\ m.gy # -1
-              THEN Res(s, <<RevealSigMsg(s, s.ax, SigBlob("R", s.ax, s.agy, s.me, s.akid))>>, NoText, FALSE, <<>>)
+              THEN Res(s, <<RevealSigMsg(s, s.ax, SigBlob("R", s.ax, s.agy, KeyOf(s.me), s.akid))>>, NoText, FALSE, <<>>)
               ELSE Res(s, <<>>, NoText, FALSE, <<>>)
     [] OTHER -> Res(s, <<>>, NoText, FALSE, <<>>)
 
@@ -272,7 +275,7 @@ RecvRevealSig(s, m, fresh) ==
         IN IF ~BlobSigOk(m.xs, s.ax, gx) THEN Res(IF KF_EarlyPeerKey THEN s2 ELSE s, <<>>, NoText, TRUE, <<>>)
            ELSE
             LET s3 == WithOwnTag([s2 EXCEPT !.atid = m.xs.kid, !.akid = s2.akid + 1, !.rev = FALSE, !.auth = "none"])
-                sig == SigMsg(s3, SigBlob("S", s3.ax, gx, s3.me, s3.akid))
+                sig == SigMsg(s3, SigBlob("S", s3.ax, gx, KeyOf(s3.me), s3.akid))
                 f == Finish(s3, fresh)
             IN Res(f.s, <<sig>>, NoText, FALSE, f.evs)
 
@@ -618,7 +621,7 @@ SMPStart(s0, secret, q, run) ==
   LET s == IF s0.smp = "nil" THEN [s0 EXCEPT !.smp = "expect1"] ELSE s0
   IN IF s.ms # "enc" THEN Res(s, <<>>, NoText, TRUE, <<>>)
      ELSE
-      LET term == Term(s.me, s.peer, s.sess, secret)
+      LET term == Term(KeyOf(s.me), s.peer, s.sess, secret)
           k == IF q THEN 7 ELSE 2
           tlvs == IF s.smp = "expect1" THEN <<k>> ELSE <<6, k>>
           s1 == [s EXCEPT !.smp = "expect2", !.smpsec = term, !.smprun = run]
@@ -631,7 +634,7 @@ SMPAnswer(s, secret) ==
   IF s.smp # "waiting" THEN Res([s EXCEPT !.smp = "expect1"], <<>>, NoText, TRUE, <<>>)
   ELSE IF s.ms # "enc" THEN Res([s EXCEPT !.smp = "expect1"], <<>>, NoText, TRUE, <<>>)
   ELSE
-    LET term == Term(s.peer, s.me, s.sess, secret)
+    LET term == Term(s.peer, KeyOf(s.me), s.sess, secret)
         s1 == [s EXCEPT !.smp = "expect3", !.smpsec = term]
         g == GenDataS(s1, NoText, FALSE, 1, <<3>>, FALSE, [k |-> 3, sec |-> term, ok |-> "ok", run |-> s.smprun])
     IN IF g.ok THEN Res([g.s EXCEPT !.hb = FALSE], <<g.m>>, NoText, FALSE, <<>>)
